@@ -10,7 +10,7 @@ import random
 import z3
 
 from .engine import resolve_target
-from .spec import Args, Const, Contract, Model, NView, Opaque, _Bool, _Int, _IntList, _Str
+from .spec import Args, Const, Contract, Model, NView, Opaque, TupleOf, _Bool, _Int, _IntList, _Str
 
 
 class NativeResult:
@@ -30,9 +30,9 @@ def nview(v):
 def native_eval(con: Contract, argvals: dict, labels=None) -> NativeResult:
     """Call the real function on argvals and evaluate the contract natively."""
     res = NativeResult()
-    fn, _node, _mod, _info = resolve_target(con.target)
     if con.call_native is not None:
-        return con.call_native(con, fn, argvals, labels)
+        return con.call_native(con, None, argvals, labels)
+    fn, _node, _mod, _info = resolve_target(con.target)
     args = {k: copy.deepcopy(v) for k, v in argvals.items()}
     pre = Args({k: nview(v) for k, v in args.items()})
     try:
@@ -122,6 +122,8 @@ def concretize(con: Contract, sigcase: dict, model) -> dict:
             out[name] = [model_value(model, z3.Select(arr, i), 0) for i in range(n)]
         elif isinstance(t, Const):
             out[name] = t.value
+        elif isinstance(t, TupleOf) and all(isinstance(e, _Int) for e in t.elts):
+            out[name] = tuple(model_value(model, z3.Int(f"{name}.{i}"), 0) for i in range(len(t.elts)))
         else:
             raise NotImplementedError(f"concretize {t.name}")
     return out
@@ -153,6 +155,12 @@ def gen_values(t, rnd, scope):
         return out
     if isinstance(t, Const):
         return [t.value]
+    if isinstance(t, TupleOf):
+        pools = [gen_values(e, rnd, scope) for e in t.elts]
+        out = []
+        for _ in range(400):
+            out.append(tuple(rnd.choice(p) for p in pools))
+        return out
     raise NotImplementedError(t.name)
 
 
